@@ -197,7 +197,8 @@ static void vstepFresh(Setup S, double hcur, double tMax, const std::string& tag
     } catch (const std::exception& e) { std::printf("O vstep EXC\n"); }
 }
 // a whole simulation with report times; every internal step becomes a vstep record
-static void simCase(Setup S, const std::vector<double>& reports, bool allowInterp, int maxSteps, const std::string& tag) {
+static int simCase(Setup S, const std::vector<double>& reports, bool allowInterp, int maxSteps, const std::string& tag) {
+    int steps = 0;
     try {
         OdeSystem sys(S.rhs);
         State s = initialState(sys, S.t0, S.y0);
@@ -210,7 +211,7 @@ static void simCase(Setup S, const std::vector<double>& reports, bool allowInter
         integ->setAllowInterpolation(allowInterp);
         integ->setReturnEveryInternalStep(true);
         integ->initialize(s);
-        size_t idx = 0; int steps = 0, guard = 0;
+        size_t idx = 0; int guard = 0;
         while (steps < maxSteps && guard++ < 20 * maxSteps) {
             const double tr = idx < reports.size() ? reports[idx] : Infinity;
             Setup R = S; R.t0 = integ->getAdvancedTime(); R.y0 = toStd(integ->getAdvancedState().getY());
@@ -229,6 +230,7 @@ static void simCase(Setup S, const std::vector<double>& reports, bool allowInter
             if (st == Integrator::ReachedReportTime) ++idx;
         }
     } catch (const std::exception& e) { std::printf("I vstep EXC %s\nO vstep EXC\n", S.method.c_str()); }
+    return steps;
 }
 
 // ------------------------------------------------------------------------------------------ istep (steps + interpolated report)
@@ -335,14 +337,22 @@ static void emitProblem(vh::Line& L, const Problem& P) {
     L.s(P.name).i((long long)P.par.size()); for (double x : P.par) L.d(x);
     L.d(P.t0).d(P.T).i((long long)P.y0.size()); for (double x : P.y0) L.d(x);
 }
-// documented order of each method (see notes/C20.md for RungeKuttaFeldberg and Verlet)
-static int documentedOrder(const std::string& m) {
+// actual order of each method (used only to choose a step size for the order measurement)
+static int nominalOrder(const std::string& m) {
     if (m == "merson" || m == "rkf") return 4;
     if (m == "rk3") return 3;
     if (m == "rk2" || m == "verlet") return 2;
     return 1;
 }
-static bool errorControlled(const std::string& m) { return m != "see"; }
+// measured on the clean tree (6 seeds x thorough ladders, see notes/C20.md) times ~10
+static double globalErrBound(const std::string& m) {
+    if (m == "rk2" || m == "rk3") return 80;
+    if (m == "cpodes_adams" || m == "see2") return 1000;
+    if (m == "cpodes_bdf" || m == "verlet") return 2500;
+    if (m == "merson") return 3500;
+    if (m == "rkf") return 5000;
+    return 13000;   // euler
+}
 
 // global error over [t0,t0+T] at nrep equally spaced report times, default options (interpolation allowed)
 static int g_lastSteps = 0;
@@ -373,23 +383,31 @@ static void ladderCase(const std::string& method, const Problem& P, const std::v
         double e;
         try { e = runGlobal(method, P, a, 10); } catch (const std::exception&) { e = NAN; }
         errs.push_back(e);
-        vh::P("global_err_over_acc", key + ".global_err", e / a, 0 /*BOUND*/);
-        if (getenv("C20_DEBUG")) std::printf("X %s %s %g %g %d\n", method.c_str(), P.name.c_str(), a, e, g_lastSteps);
+        vh::P("global_err_over_acc", key + ".global_err", e / a, globalErrBound(method));
+        vh::P("global_err_per_step_over_acc", key + ".err_per_step", e / (a * std::max(1, g_lastSteps)), 50);
     }
     for (size_t i = 0; i + 1 < accs.size(); ++i)
-        vh::P("tighten_not_worse", key + ".tighten", errs[i + 1] / std::max(errs[i], 1e-13), 0 /*BOUND2*/);
+        vh::P("tighten_not_worse", key + ".tighten", errs[i + 1] / std::max(errs[i], accs[i + 1]), 3);
 }
 static void orderCase(const std::string& method, const Problem& P, double h) {
     vh::Line in = vh::I("acc"); in.s("order").s(method); emitProblem(in, P); in.d(h); in.emit();
     std::printf("O acc 1\n");
     vh::D("acc.order." + method + "." + P.name);
+    // documented order = what the public API reports (Integrator::getMethodMinOrder)
+    int pdoc = 0;
+    { OdeSystem sys(P.rhs); pdoc = makeInteg(method, sys)->getMethodMinOrder(); }
     // observed order = best of the pairs (h,h/2), (h/2,h/4): a single pair can be spoiled by cancellation
-    // between the h^p and h^(p+1) error terms; a method of genuinely lower order is low on both
+    // between the h^p and h^(p+1) error terms; a method of genuinely lower order is low on both.
+    // Pairs whose finer error is at rounding level (< 1e-12) carry no information and are skipped.
     double e1 = NAN, e2 = NAN, e3 = NAN;
     try { e1 = runGlobal(method, P, 0, 4, h); e2 = runGlobal(method, P, 0, 4, h / 2); e3 = runGlobal(method, P, 0, 4, h / 4); }
     catch (const std::exception&) {}
-    const double pobs = std::max(std::log2(e1 / e2), std::log2(e2 / e3));
-    vh::P("order_deficit", method + "." + P.name + ".order", documentedOrder(method) - pobs, 0 /*BOUND3*/);
+    double pobs = -INFINITY; bool any = false;
+    if (!(e2 < 1e-12)) { pobs = std::max(pobs, std::log2(e1 / e2)); any = true; }
+    if (!(e3 < 1e-12)) { pobs = std::max(pobs, std::log2(e2 / e3)); any = true; }
+    // RungeKuttaFeldberg advertises order 5 but propagates its 4th-order solution (theorem rkf_order): own key
+    const std::string key = method == "rkf" ? "rkf.minorder5.order" : method + "." + P.name + ".order";
+    vh::P("order_deficit", key, any ? pdoc - pobs : 0.0, 0.35);
 }
 // interpolated report states vs the step states around them
 static void interpCase(const std::string& method, const Problem& P, double acc, const std::vector<double>& reports) {
@@ -419,13 +437,16 @@ static void interpCase(const std::string& method, const Problem& P, double acc, 
             pending.clear(); ePrev = e;
         }
     } catch (const std::exception&) { worstRatio = NAN; }
-    vh::P("interp_vs_steps", method + "." + P.name + ".interp", worstRatio, 0 /*BOUND4*/);
+    // cubic Hermite (3rd order) under the two 4th-order methods: own keys (see notes/C20.md, finding)
+    const std::string key = (method == "rkf" || method == "merson") ? method + ".hermite.interp" : method + "." + P.name + ".interp";
+    vh::P("interp_vs_steps", key, worstRatio, 4);
 }
 static const char* PROBLEMS[] = {"sho", "spiral", "stiffish", "forced", "pend"};
 static const char* ACCM[] = {"merson", "rkf", "rk3", "rk2", "verlet", "cpodes_bdf", "cpodes_adams", "euler", "see2"};
 static long accuracyCase(vh::Rng& g, bool thorough) {
     const int kind = g.below(4);
-    const std::string pn = PROBLEMS[g.below(5)];
+    std::string pn = PROBLEMS[g.below(5)];
+    if (kind == 2 && pn == "stiffish") pn = "spiral";   // order needs h*k << 1 and errors above rounding: not on the stiff decay
     Problem P = randomProblem(g, pn);
     if (kind <= 1) {
         const std::string m = ACCM[g.below(9)];
@@ -438,7 +459,7 @@ static long accuracyCase(vh::Rng& g, bool thorough) {
     } else if (kind == 2) {
         const char* fm[] = {"merson", "rkf", "rk3", "rk2", "verlet", "euler", "see", "see2"};
         const std::string m = fm[g.below(8)];
-        const int p = documentedOrder(m);
+        const int p = nominalOrder(m);
         orderCase(m, P, p >= 4 ? 0.05 : p == 3 ? 0.02 : p == 2 ? 0.01 : 0.002);
         return 2;
     } else {
@@ -511,6 +532,13 @@ int main(int argc, char** argv) {
     const char* ctl[] = {"merson", "rkf", "rk3", "rk2", "euler", "see2"};      // error-controlled, modelled
     const char* all[] = {"merson", "rkf", "rk3", "rk2", "euler", "see2", "see"};
     const bool thorough = args.n > 2000;
+    // deterministic witnesses (independent of the seed) of the two findings documented in notes/C20.md
+    {
+        orderCase("rkf", makeProblem("sho", {2.0}, 0.0, 4.0, {1.0, 0.5}), 0.05);
+        std::vector<double> rep; for (int i = 1; i < 60; ++i) rep.push_back(0.05 * i - 0.013);
+        interpCase("rkf", makeProblem("pend", {9.81}, 0.0, 3.0, {2.0, 0.0}), 1e-7, rep);
+        interpCase("merson", makeProblem("spiral", {0.3, 2.5}, 0.0, 3.0, {1.0, 0.5}), 1e-9, rep);
+    }
     // records are counted in units of "cases"; a simulation contributes several vstep records
     long produced = 0;
     while (produced < args.n) {
@@ -518,10 +546,10 @@ int main(int argc, char** argv) {
         std::string tag; Rhs r = randomRhs(g, tag);
         std::vector<double> y0 = randomY(g, r.ny());
         const double t0 = g.below(3) == 0 ? 0.0 : g.range(-2, 2);
-        if (stream <= 1) {                                   // fixed-step trajectories, all 7 modelled methods
+        if (stream <= 2) {                                   // fixed-step trajectories, all 7 modelled methods
             trajCase(all[g.below(7)], r, t0, y0, g.range(0.005, 0.2), 1 + g.below(8), tag);
             produced += 1;
-        } else if (stream <= 4) {                            // simulations: realistic accept/reject/limited mix
+        } else if (stream <= 3) {                            // simulations: realistic accept/reject/limited mix
             Setup S; S.method = ctl[g.below(6)]; S.useInf = g.below(3) == 0; S.rhs = r; S.acc = randomAcc(g); S.t0 = t0; S.y0 = y0;
             if (S.method == "euler" || S.method == "see2") S.acc = std::pow(10.0, -g.range(1.0, 4.0));
             if (g.below(4) == 0) S.umax = g.range(0.02, 0.3);
@@ -530,10 +558,9 @@ int main(int argc, char** argv) {
             if (g.below(4) == 0) S.tFinal = t0 + g.range(0.05, 1.0);
             std::vector<double> reports; double t = t0;
             const int nr = g.below(6); for (int i = 0; i < nr; ++i) { t += g.range(0.003, 0.3); reports.push_back(t); }
-            const int ms = 4 + g.below(10);
-            simCase(S, reports, g.coin(), ms, tag);
-            produced += ms / 2;
-        } else if (stream <= 6) {                            // single steps from arbitrary step sizes: many retries / growth
+            const int ms = 3 + g.below(6);
+            produced += 1 + simCase(S, reports, g.coin(), ms, tag);
+        } else if (stream <= 5) {                            // single steps from arbitrary step sizes: many retries / growth
             Setup S; S.method = ctl[g.below(6)]; S.useInf = g.below(3) == 0; S.rhs = r; S.acc = randomAcc(g); S.t0 = t0; S.y0 = y0;
             const double hcur = std::pow(10.0, -g.range(0.3, 3.5));
             if (g.below(5) == 0) S.umax = hcur * g.range(1.0, 3.0);
